@@ -167,6 +167,15 @@ TVRead ==
      IF ev.val % 64 # want THEN Bad("sel", "selector read-back", want)
      ELSE UNCHANGED << srcLine, r, skip, nbad, njudged, nskipgeo, h0 >>
 
+(* two observations that must coincide (digests computed by the harness), e.g. the rasteriser *)
+(* log of the direct pipeline and of the encode+decode pipeline for the same on-grid steps   *)
+TVSame ==
+  /\ Trace[l].ev = "same"
+  /\ IF Trace[l].a = Trace[l].b THEN UNCHANGED << srcLine, r, skip, nbad, njudged, nskipgeo, h0 >>
+     ELSE /\ PrintT(ToJson([diag |-> "pipe", what |-> Trace[l].what, line |-> l,
+                             id |-> Trace[srcLine].id, ev |-> Trace[l], want |-> "equal"]))
+          /\ nbad' = nbad + 1 /\ UNCHANGED << srcLine, r, skip, njudged, nskipgeo, h0 >>
+
 (* Generator gradient helpers: hstart before the helper runs, helper after *)
 TVHStart ==
   /\ Trace[l].ev = "hstart" /\ ~skip
@@ -193,7 +202,7 @@ TVHelper ==
      ELSE IF rej = "" /\ ~GeomOK(ev, a.m) THEN Bad("gen", "gradient geometry", a.m)
      ELSE UNCHANGED << srcLine, r, skip, nbad, njudged, nskipgeo, h0 >>
 
-TVSkip == Trace[l].ev # "rsrc" /\ skip /\ UNCHANGED << srcLine, r, skip, nbad, njudged, nskipgeo, h0 >>
+TVSkip == Trace[l].ev \notin {"rsrc", "same"} /\ skip /\ UNCHANGED << srcLine, r, skip, nbad, njudged, nskipgeo, h0 >>
 
 TVCall ==
   /\ Trace[l].ev = "call" /\ ~skip
@@ -221,7 +230,7 @@ TVCall ==
           /\ nskipgeo' = IF res.judge = "none" THEN nskipgeo + 1 ELSE nskipgeo
           /\ UNCHANGED << srcLine, skip, nbad, h0 >>
 
-Next == l <= Len(Trace) /\ l' = l + 1 /\ (TVSrc \/ TVSkip \/ TVCall \/ TVSet \/ TVMCall \/ TVRead \/ TVHStart \/ TVHelper)
+Next == l <= Len(Trace) /\ l' = l + 1 /\ (TVSrc \/ TVSkip \/ TVCall \/ TVSet \/ TVMCall \/ TVRead \/ TVHStart \/ TVHelper \/ TVSame)
 Spec == Init /\ [][Next]_vars
 Done == l = Len(Trace) + 1
 Report == Done => PrintT(ToJson([diag |-> "summary", lines |-> Len(Trace), nbad |-> nbad,
